@@ -14,8 +14,12 @@ structure ObsCell where
   cap : Nat
   vals : List Int
 
+/-- a nil element (the padding of a tree-form write) is carried as this value; the elements the stratum stores are 0 … 99 -/
+def nilElem : Int := -1000000007
+
 def parseIntTok (t : String) : Option Int :=
-  if t.startsWith "-" then (t.drop 1).toString.toNat?.map (fun n => -(n : Int)) else t.toNat?.map (fun n => (n : Int))
+  if t == "n" then some nilElem
+  else if t.startsWith "-" then (t.drop 1).toString.toNat?.map (fun n => -(n : Int)) else t.toNat?.map (fun n => (n : Int))
 
 def parseInts (t : String) : Option (List Int) :=
   if t.isEmpty then some [] else (t.splitOn ",").mapM parseIntTok
@@ -64,8 +68,23 @@ def outcomeName : Outcome → String
 
 def sortInts (xs : List Int) : List Int := xs.mergeSort (fun a b => decide (a ≤ b))
 
+/-- the tree-form writes of a list at a leaf go through the methods (`SetTF("#i", v)`: `Replace(i, v)` inside the list, else
+`i - Count` times `Add(nil)` and `Add(v)`; `UnsetTF("#i")`: `Delete(i)` — `TreeFormGenEq` proves the model's `TF.setL`/`unsetL`
+equal to that): here they are expanded into the corresponding storage operation -/
+def expandTF (cells : List Slice) (t : String) : Option (Op Int) :=
+  match t.splitOn " " with
+  | ["settf", c, i, v] => match c.toNat?, i.toNat?, parseIntTok v with
+    | some c, some i, some v =>
+      match cells[c]? with
+      | some s => if i < s.len then some (.replace c i v) else some (.add c (List.replicate (i - s.len) nilElem ++ [v]))
+      | none => some (.replace c i v)
+    | _, _, _ => none
+  | ["unsettf", c, i] => match c.toNat?, i.toNat? with
+    | some c, some i => some (.delete c [i]) | _, _ => none
+  | _ => parseSlOp t
+
 def execSl (opText outcome snap : String) : M Unit := do
-  let some op := parseSlOp opText | fail s!"protocol: bad sl operation {opText}"
+  let some op := expandTF (← get).slCells opText | fail s!"protocol: bad sl operation {opText}"
   let some obs := parseSnap snap | fail s!"protocol: bad sl snapshot {snap}"
   let st ← get
   let σ : SHeap Int := ⟨st.slMem, st.slCells⟩
